@@ -635,7 +635,14 @@ fn op_approx_pw<T: Num + PartialEq + approx::AbsDiffEq<Epsilon = f64> + approx::
     let b = Piecewise { segments: parse_segs::<T>(&c["b"]) };
     let eps = f(c["eps"].as_u64().unwrap());
     let rel = f(c["rel"].as_u64().unwrap());
-    vec![a.abs_diff_eq(&b, eps) as u64, a.relative_eq(&b, eps, rel) as u64, (a == b) as u64]
+    // last two: the value compared with ITSELF (the same object): the answer may depend on the numbers only
+    vec![
+        a.abs_diff_eq(&b, eps) as u64,
+        a.relative_eq(&b, eps, rel) as u64,
+        (a == b) as u64,
+        a.abs_diff_eq(&a, eps) as u64,
+        a.relative_eq(&a, eps, rel) as u64,
+    ]
 }
 fn op_approx_polyn(c: &Value) -> Vec<u64> {
 
